@@ -606,9 +606,9 @@ Top:
 		if s[0] != quote || s[last] != quote {
 			continue
 		}
-		for i := 1; i < last-1; i++ {
+		for i := 1; i < last; i++ {
 			switch c := s[i]; {
-			case c == '\\', c == quote && s[i+1] == quote:
+			case c == '\\', c == quote && i+1 < last && s[i+1] == quote:
 				i++
 			// Accept only escaped quotes and reject otherwise.
 			case c == quote:
